@@ -49,7 +49,7 @@ ASSUMPTIONS = [
     "hierarchical polynomial clauses use the tolerance scale*(1e-10 + 1e-14*cond(collocation matrix)) and are skipped "
     "(counted as class 'ill-conditioned-skipped', never a violation) when cond > 1e9",
     "high-order rule, attained order: only on uniform grids (>= 3 points, boundary on) is a minimum order demanded "
-    "(min(2, max_degree); the degree-2 weights are provably positive there); elsewhere the attained order depends on the "
+    "(min(2, max_degree); the degree-2 moment-matched weights are positive there: Simpson for 3 points, trapezoid*(1-O(h^2)) beyond); elsewhere the attained order depends on the "
     "library's non-negativity test and only 'exact up to what it reports' is demanded",
     "GlobalHighOrderGrid: do_nnls=False and modified_basis=False (no live caller passes anything else)",
     "GlobalBSplineGrid trees are generated with tree level <= 11 (quick) / 13 (thorough): the class materialises the "
@@ -769,18 +769,38 @@ def selftest():
     import numpy as np
     lv = relabel(list(range(9)), np.random.default_rng(3))
     assert lv[0] == 0 and lv[-1] == 0 and lv.count(1) == 1 and min(lv[1:-1]) == 1, lv
-    # end to end on a closed form: Simpson-like exactness of the library's high-order rule on 3 uniform points is not
-    # assumed; instead check that the harness flags a deliberately wrong "library": a grid whose weights are doubled
-    case = dict(a=[0.0], len=[1.0], mode="boundary", trees=[[[0, 0.5], [0, 0.5]]], rng=1)
-    o = run_trapezoid(case)
-    assert not o.violations, o.violations
+    # the cause attribution of a high-order mass defect recognises un-rescaled fallback weights (and nothing else)
+    class _Fake(object):          # stands in for the grid object: claims degree 1 and returns the block weights given
+        def __init__(self, w):
+            self.w = w
+
+        def get_1D_weights_and_order(self, sub_pts, a, b, lev):
+            return self.w, 1
+    fp = [0.0, 0.25, 0.5, 1.0]
+    tw = ref_trap_weights(fp, "noboundary")                   # [0.25, 0.375]
+    unscaled = [0.0] + [t * 2.0 / sum(tw) for t in tw] + [0.0]
+    causes = set()
+    _ho_blocks_explain(_Fake(unscaled), fp, [0, 2, 1, 0], unscaled, 0, 3, causes)
+    assert causes == {"fallback-weights-not-scaled-by-(b-a)/2"}, causes
+    other = [0.0, 1.5, 0.5, 0.0]
+    causes = set()
+    _ho_blocks_explain(_Fake(other), fp, [0, 2, 1, 0], other, 0, 3, causes)
+    assert causes == {"unexplained"}, causes
+    # end to end: the three sub-checks accept the closed-form cases on uniform grids (trapezoid h/2,h,..,h/2; the
+    # high-order rule on 3 uniform points must be Simpson; Lagrange p=2 on [a,m,b] integrates x^2)
+    o = run_trapezoid(dict(a=[0.0], len=[1.0], mode="boundary", trees=[complete_splits(2)], rng=1))
+    assert not o.violations and not o.nontrivial, o.violations
+    o = run_highorder(dict(a=[0.0], len=[1.0], boundary=True, max_degree=2, split_up=False, trees=[complete_splits(1)], rng=1))
+    assert not o.violations and "reported-degree=2" in o.classes, (o.violations, o.classes)
+    o = run_hierarchical(dict(a=[-1.0], len=[3.0], family="lagrange", p=2, mode="boundary", trees=[complete_splits(1)], rng=1))
+    assert not o.violations and "demanded-degree=2" in o.classes, (o.violations, o.classes)
 
 
 SUBS = [
-    Sub("trapezoid", trapezoid_strategy, run_trapezoid, dict(quick=4800, thorough=60000),
-        budget_s=dict(quick=40, thorough=420)),
-    Sub("highorder", highorder_strategy, run_highorder, dict(quick=3200, thorough=40000),
-        budget_s=dict(quick=40, thorough=420), fixed_cases=highorder_fixed),
-    Sub("hierarchical", hierarchical_strategy, run_hierarchical, dict(quick=1600, thorough=16000),
-        budget_s=dict(quick=45, thorough=540)),
+    Sub("trapezoid", trapezoid_strategy, run_trapezoid, dict(quick=12800, thorough=160000),
+        budget_s=dict(quick=25, thorough=240)),
+    Sub("highorder", highorder_strategy, run_highorder, dict(quick=9600, thorough=120000),
+        budget_s=dict(quick=25, thorough=240), fixed_cases=highorder_fixed),
+    Sub("hierarchical", hierarchical_strategy, run_hierarchical, dict(quick=4800, thorough=48000),
+        budget_s=dict(quick=25, thorough=300)),
 ]
